@@ -513,8 +513,13 @@ def run(ctx):
                        "(bytecode inspected, call sequence compared with the model generator) and run with a stack-depth "
                        "probe; random typed programs (C03 generator) for the call-sequence comparison; non-tail recursion of "
                        "three frame shapes at depths around every doubling boundary, between max/2 and max, around and beyond "
-                       "the maximum vs the model's deep_outcome; long apply argument lists deep in a recursion; distinct by "
-                       "program text, all non-trivial")
+                       "the maximum vs the model's deep_outcome; long apply argument lists deep in a recursion; every loop "
+                       "procedure also defined inside a top-level let (code simplify.c never reaches: constants / references "
+                       "as sequence elements, constant tests survive to the code generator); callee kinds with 8, 20, 40 "
+                       "arguments and arity-increasing mutual recursion; the expected CALL / TAIL-CALL flag is computed per "
+                       "call SITE from the surface program (R7RS 3.5) and compared in code order; sequences of sexp_apply "
+                       "calls on ONE context (out-of-stack and ordinary errors in between) vs the model's session_z; "
+                       "distinct by program text, all non-trivial")
     if os.environ.get("C05_DEBUG"):
         _b = ctx.broken
         def dbg(name, reason, **kw):
@@ -774,6 +779,7 @@ def run(ctx):
         ctx.broken("constants", "SEXP_MAX_STACK_SIZE / SEXP_INIT_STACK_SIZE of the tree (%s / %s) differ from coq/C05/Model.v (1024000 / 1024)"
                    % (hdr.get("max-stack"), hdr.get("init-stack")))
     deep_report = deep_recursion(ctx, h, exe, d, maxs, inits, rng)
+    apply_report = apply_sessions(ctx, h, exe, d, maxs, inits, rng)
     # long argument lists applied deep in a recursion: growth by more than doubling (ASan + poisoned free chunks)
     try:
         da = ctx.build("asan")
@@ -819,7 +825,7 @@ def run(ctx):
                                              random_typed_programs=nrand, forms_compared_with_model=nmodel,
                                              forms_outside_model=nunsupported, call_sites_flag_checked=nsites, iterations_big=N,
                                              programs_with_big_N=len([m for m in meta if m[1] == N]), iterations_small=NS,
-                                             deep=deep_report, deepapply_grid=len(grid))
+                                             deep=deep_report, apply_sessions=apply_report, deepapply_grid=len(grid))
     ctx.sample(dict(kind="loop", program=texts[0], outcome=plan[0]["out"]))
     ctx.sample(dict(kind="loop", program=lines[0][:400], outcome=results.get(0, (0, "", None, 0))[2]))
     k = [i for i in range(nloops) if cases[i][4] == "spine"]
@@ -827,7 +833,9 @@ def run(ctx):
         ctx.sample(dict(kind="spine", program=texts[k[0]][:600], outcome=plan[k[0]]["out"], siblings=plan[k[0]]["sib"]))
     ctx.assume("chain_step's 'quiet' steps (fp and frame header unchanged by instructions other than calls/returns) are a premise of tail_loop_bounded; proved per opcode of the model VM under 'the operand stack stays above the frame header' (see notes), validated by the depth probe")
     ctx.assume("C recursion inside analyze / equal? / write on deep data is outside this check")
-    ctx.trust("harness/embed_c03.c (verif-top = sexp_context_top published by the VM before a foreign call; verif-stack-length; DEPTH = sexp_bytecode_max_depth), props/C05.py context table (which surface contexts are tail contexts, from R7RS 3.5)")
+    ctx.assume("oos_leaves_context_usable speaks about sexp_apply with fixes/C05-apply-exit-top.patch; on a tree without it the "
+               "finding F-C05-2 is recorded as a note (theorem apply_exit_pinned_refuted), not enforced")
+    ctx.trust("harness/embed_c03.c (verif-top = sexp_context_top published by the VM before a foreign call; verif-stack-length; DEPTH = sexp_bytecode_max_depth), harness/embed_c05_apply.c (sexp_apply on one context), props/C05.py context table and surface_sites (which surface positions are tail positions, from R7RS 3.5; the two are cross-checked against each other on every program)")
 
 
 DEEP_FAMILIES = [
@@ -936,6 +944,119 @@ def deep_recursion(ctx, h, exe, d, maxs, inits, rng):
     return report
 
 
+APPLY_FIX = os.path.join(os.path.dirname(os.path.dirname(os.path.abspath(__file__))), "fixes", "C05-apply-exit-top.patch")
+APPLY_FIX_SUBJECT = "sexp_apply restores the context's stack top"
+
+
+def apply_fix_present():
+    """is the repair of F-C05-2 part of the tree under test?  (the patch is applied in the working tree, or a commit with
+    the proposed subject is in its history - then a later change that undoes it is a regression, not the known finding)"""
+    try:
+        r = subprocess.run(["git", "-C", B.REPO, "apply", "--reverse", "--check", APPLY_FIX], capture_output=True, timeout=60)
+        if r.returncode == 0:
+            return True
+        r = subprocess.run(["git", "-C", B.REPO, "log", "--oneline", "-F", "--grep", APPLY_FIX_SUBJECT], capture_output=True, text=True, timeout=60)
+        return bool(r.stdout.strip())
+    except (OSError, subprocess.TimeoutExpired):
+        return False
+
+
+def apply_sessions(ctx, h, exe, d, maxs, inits, rng):
+    """"leaving the context usable": sexp_apply called again and again on ONE context (harness/embed_c05_apply.c; sexp_eval
+    would hide everything behind a fresh child stack).  Sequences of non-tail recursions of chosen depths, out-of-stack
+    failures and ordinary errors in between; after every call the outcome, the context's stack top and the stack length
+    must be those of the extracted model [session_z] with the repaired exit (theorem oos_leaves_context_usable)."""
+    exe_h = B.cc_embed(d, os.path.join(os.path.dirname(APPLY_FIX), "..", "harness", "embed_c05_apply.c"), os.path.join(d, "embed_c05_apply"))
+    defs = ["DEF (define t0 0)",
+            "DEF (define (deep n) (if (= n 0) (begin (set! t0 (verif-top)) 0) (+ 1 (deep (- n 1)))))",
+            "DEF (define (bad n) (if (= n 0) (car 0) (+ 1 (bad (- n 1)))))"]
+
+    def run(reqs):
+        try:
+            r = subprocess.run([exe_h], input="\n".join(defs + reqs) + "\n", capture_output=True, text=True, env=B.chibi_env(d), timeout=600)
+            out, rc = r.stdout, r.returncode
+        except subprocess.TimeoutExpired as e:
+            out, rc = (e.stdout.decode(errors="replace") if isinstance(e.stdout, bytes) else (e.stdout or "")), "TIMEOUT"
+        ans = [l for l in out.split("\n") if l and l != "END" and not l.startswith("READY")]
+        res = []
+        for l in ans[len(defs):]:
+            m = re.match(r"(V -?\d+|E out-of-stack|E other) top=(-?\d+) len=(\d+) t0=(-?\d+)$", l)
+            res.append((m.group(1), int(m.group(2)), int(m.group(3)), int(m.group(4))) if m else (l[:80], -1, -1, -1))
+        while len(res) < len(reqs):
+            res.append(("CRASH rc=%s" % rc, -1, -1, -1))
+        return res
+    strict = apply_fix_present()
+    # calibration: frame size, top at the first recursive call's stack check, request size (as deep_recursion)
+    _, ans = h.run(["TOP " + defs[0][4:], "TOP " + defs[1][4:], "DEPTH deep"], timeout=120)
+    m0 = re.match(r"V \((\d+) (\d+) (\d+)\)$", K.impl_outcome(ans[2]))
+    cal = run(["APPLY deep 0", "APPLY deep 1", "APPLY deep 2"])
+    if not m0 or any(c[0] != "V %d" % i or c[1] != 0 for i, c in enumerate(cal)):
+        ctx.broken("apply-session:calibration", "no probe values: %s %s" % (K.impl_outcome(ans[2]), cal))
+        return {}
+    n = int(m0.group(1)) + 64
+    t = [c[3] for c in cal]
+    per, c0 = t[1] - t[0], t[0] + 2
+    if per <= 0 or t[2] - t[1] != per or per > n:
+        ctx.broken("apply-session:calibration", "frame size not constant / not in (0, n]: tops %s, n %d" % (t, n))
+        return {}
+    kmax = max(1, ceil_div(maxs - n - c0, per) + 1)          # smallest depth that runs out of stack from top 0
+    sessions = [[10, 1000, 3 * maxs, 10, 200000, kmax - 1, kmax, 5, 2 * kmax, 1000],
+                [kmax, 1, kmax - 1, kmax + 1, kmax - 2],
+                [("bad", 1000), 10, ("bad", 2000), ("bad", 5), kmax - 1]]
+    for _ in range(2 if not ctx.thorough else 20):
+        sessions.append([rng.choice([rng.randrange(1, 2000), rng.randrange(kmax - 50, kmax + 50), rng.randrange(kmax, 4 * kmax),
+                                     rng.randrange(1, kmax), ("bad", rng.randrange(1, 3000))]) for _ in range(rng.randrange(3, 9))])
+    report = dict(strict=strict, sessions=len(sessions), calls=0, frame=per, first_check=c0, request=n, oos_from_depth=kmax)
+    pending = []
+    for ss in sessions:
+        reqs = ["APPLY %s %d" % (("bad", x[1]) if isinstance(x, tuple) else ("deep", x)) for x in ss]
+        real = run(reqs)
+        # an ordinary error at depth k: the model knows it as a call that fails without touching the length beyond the
+        # growth of its k stack checks; with the repaired exit the top is the entry top again in both cases
+        ks = [x[1] if isinstance(x, tuple) else x for x in ss]
+        mo = ctx.run_model(exe, ["session %d %d %d %d 0 %d %s" % (fx, c0, per, n, inits, " ".join(str(k) for k in ks)) for fx in (1, 0)])
+        models = [[tuple(int(v) for v in part.split()) for part in line.split(" ; ")] for line in mo]
+        text = "; ".join("(sexp_apply %s %d)" % (("bad", x[1]) if isinstance(x, tuple) else ("deep", x)) for x in ss)
+        replay = "printf '%%s\\n' %s | %s %s" % (" ".join("'%s'" % q for q in defs + reqs), runenv(d), exe_h)
+        ctx.count(1, key=("apply-session", tuple(reqs)), nontrivial=True)
+        report["calls"] += len(reqs)
+        ctx.cov["traces_validated_against_impl"] += 1
+        top_expected, hist = 0, []
+        for j, (x, r) in enumerate(zip(ss, real)):
+            isbad = isinstance(x, tuple)
+            k = x[1] if isbad else x
+            ok_m, top_m, len_m = models[0][j]
+            want = ("E other" if ok_m else "E out-of-stack") if isbad else ("V %d" % k if ok_m else "E out-of-stack")
+            hist.append("%s -> %s top=%d len=%d" % (reqs[j][6:], r[0], r[1], r[2]))
+            same = r[0] == want and r[1] == top_m and r[2] == len_m
+            if same:
+                continue
+            what = "%s  ; call %d of the session; model (repaired exit): %s top=%d len=%d" % (text, j + 1, want, top_m, len_m)
+            obs = " | ".join(hist)
+            if not strict:
+                # the tree does not contain fixes/C05-apply-exit-top.patch: F-C05-2 is expected, anything else is not
+                ok_p, top_p, len_p = models[1][j]
+                want_p = ("E other" if ok_p else "E out-of-stack") if isbad else ("V %d" % k if ok_p else "E out-of-stack")
+                if (r[0] == want_p and r[2] == len_p and (isbad or r[1] == top_p)) or (isbad and r[0] in ("E other", "E out-of-stack")):
+                    pending.append(what + "  observed " + obs)
+                    break
+            if r[0] == "E out-of-stack" and want != "E out-of-stack" and top_m + c0 + (k - 1) * per + n + 1024 < maxs:
+                ctx.violation("apply:context-unusable-after-error", input=what, expected="%s, context top %d" % (want, top_m), observed=obs, replay=replay)
+            elif r[0] == want and r[1] != top_m:
+                ctx.violation("apply:context-top-after-error", input=what, expected="context top %d after the call (the entry top)" % top_m, observed=obs, replay=replay)
+            elif r[0].startswith("CRASH") or (r[0].startswith("V ") and want.startswith("V ") and r[0] != want):
+                ctx.violation("apply:wrong-result", input=what, expected=want, observed=obs, replay=replay)
+            else:
+                ctx.broken("correspondence:apply-session", "sexp_apply session differs from session_z: %s observed %s" % (what, obs))
+            break
+    if pending:
+        report["pending_finding"] = "F-C05-2"
+        ctx.note("F-C05-2 (not enforced: fixes/C05-apply-exit-top.patch is not part of the tree under test): sexp_apply leaves the "
+                 "context's stack top at the depth of an uncaught error; after out-of-stack every later sexp_apply on the context "
+                 "fails (theorem apply_exit_pinned_refuted).  First case: " + pending[0][:900])
+    return report
+
+
 def replay(ctx, j):
     """./check C05 --replay evidence/replay/C05-n.json : run the recorded shell replay of each failing case"""
     ctx.build("default")
@@ -945,7 +1066,11 @@ def replay(ctx, j):
         out = (r.stdout + r.stderr)[-1500:]
         exp = str(c.get("expected", "")).split("  ")[0]
         last = [l for l in r.stdout.split("\n") if l.startswith(("V ", "E "))]
-        if c.get("sig", "").startswith("tail:call-at-tail-site"):
+        if c.get("sig", "").startswith("apply:"):
+            # a session of sexp_apply calls on one context: every call must leave the context top at the entry top (0)
+            tops = re.findall(r"^(V -?\d+|E [a-z-]+) top=(-?\d+) len=", r.stdout, re.M)
+            bad = not tops or any(int(t) != 0 for _, t in tops) or "CRASH" in out
+        elif c.get("sig", "").startswith("tail:call-at-tail-site"):
             real = [l for l in r.stdout.split("\n") if l.startswith("B ")]
             try:
                 got = " ".join(calls_string(code_bodies(K.sx_parse(b[2:]), [])) for b in real)
